@@ -2719,7 +2719,10 @@ def parse_value(value):
   """Parse and return a single Gin value."""
   if not isinstance(value, str):
     raise ValueError('value ({}) should be a string type.'.format(value))
-  return config_parser.ConfigParser(value, ParserDelegate()).parse_value()
+  parser = config_parser.ConfigParser(value, ParserDelegate())
+  parsed_value = parser.parse_value()
+  parser.expect_end_of_input()
+  return parsed_value
 
 
 def config_is_locked():
